@@ -70,4 +70,13 @@ Ref(D, endk) == RefOf(RRun(D), Len(D), endk)
 \* text of a value (for comparing with what an implementation model returns)
 Slice(D, p) == SubSeq(D, p[1], p[2])
 NoBlank(s) == SelectSeq(s, LAMBDA c : ~IsBlank(c))
+\* ---- value-by-value decoding of the whole input held as a string (decoder.Decoder, module DecObj) ----
+RestBlank(D, q) == \A i \in (q + 1)..Len(D) : IsBlank(D[i])
+
+\* closed form: positions after each successful Decode, CheckTrailings verdict after k values (k = 0: before any)
+StepsOf(D, e) ==
+  [n   |-> Len(e.vals),
+   pos |-> [k \in 1..Len(e.vals) |-> e.vals[k][2]],
+   ct  |-> [k \in 1..(Len(e.vals) + 1) |-> RestBlank(D, IF k = 1 THEN 0 ELSE e.vals[k - 1][2])]]
+Steps(D) == StepsOf(D, Ref(D, "EOF"))
 =============================================================================
